@@ -7,7 +7,7 @@ rows = []
 for l in open(f"{V}/tools/fixes.tsv"):
     h, prop, oracle, cmd, what = l.rstrip("\n").split("\t")
     rows.append(f"| `{h}` | {prop} `{oracle}` ({cmd}) | {what} |")
-t = t.replace("@FIXTABLE@", "\n".join(rows))
+t = t.replace("@FIXTABLE@", "\n".join(rows)).replace("@NFIX@", str(len(rows)))
 seeded = []
 res = {}
 p = f"{V}/seeded/RESULTS.tsv"
